@@ -25,6 +25,7 @@ import (
 	"strings"
 	"sync/atomic"
 	"testing"
+	"time"
 
 	"github.com/zeromicro/go-zero/core/logx"
 	"github.com/zeromicro/go-zero/internal/verifkit"
@@ -143,7 +144,39 @@ func (h *pipeHarness) step(what string, apply func() error) (string, error) {
 			return fmt.Sprintf("new subscriber %s: %s", s.name, msg), nil
 		}
 	}
-	return "", nil
+	return h.probe(), nil
+}
+
+// probe: a subscriber that joins now (and leaves again) must see the registrations as
+// told to the watcher it joins.  One probe per range that has an open subscriber, so the
+// probe never opens or ends a watch.
+func (h *pipeHarness) probe() string {
+	seen := map[string]bool{}
+	for _, s := range h.subs {
+		if seen[s.rangeID] {
+			continue
+		}
+		seen[s.rangeID] = true
+		var opts []SubOption
+		exact := s.rangeID == VerifRangeID(h.base, true)
+		if exact {
+			opts = append(opts, WithExactMatch())
+		}
+		p, err := NewSubscriber(h.etcd.Endpoints(), h.base, opts...)
+		if err != nil {
+			return fmt.Sprintf("probe subscriber: %v", err)
+		}
+		got := setOf(p.Values())
+		p.Close()
+		want := map[string]bool{}
+		for _, v := range h.told[s.rangeID] {
+			want[v] = true
+		}
+		if !sameSet(got, want) {
+			return fmt.Sprintf("a subscriber joining now (exact=%v) sees Values()=%v, registered %s", exact, setList(got), h.symKVs(h.told[s.rangeID]))
+		}
+	}
+	return ""
 }
 
 // deliver advances the models of range r by the events etcd handed out.
@@ -590,4 +623,54 @@ func TestVerifC13RegressD4PipelineReconnectChangesValue(t *testing.T) {
 		func(h *pipeHarness) (string, error) { return h.opPut("B/k0", "v1") },
 		func(h *pipeHarness) (string, error) { return h.opReconnect() },
 	)
+}
+
+// ------------------------------------------------------------------ observation (not part of any unit)
+
+// TestVerifC13ObserveReloadDeadlock demonstrates a schedule-dependent defect met while
+// building this check; C13 quantifies over histories, not schedules, so no unit runs it
+// (set VERIF_C13_DEMO=reload-deadlock and -test.run it by name).
+//
+// cluster.reload (started by the connection-state watcher after a reconnect) takes the
+// cluster lock and, holding it, waits for the watch goroutines to leave.  A watch
+// goroutine that has just received a response needs that lock in handleWatchEvents (once
+// per response and once per event), so if the reload begins while a response is being
+// handled both wait for each other forever: the subscribers of that cluster never see
+// another change.  The listener gate below only makes the interleaving deterministic.
+func TestVerifC13ObserveReloadDeadlock(t *testing.T) {
+	if os.Getenv("VERIF_C13_DEMO") != "reload-deadlock" {
+		t.Skip("demonstration only")
+	}
+	logx.Disable()
+	h := newPipeHarness()
+	if msg, err := h.opSubscribe(false, false, 0); msg != "" || err != nil {
+		t.Fatal(msg, err)
+	}
+	entered, gate := make(chan struct{}), make(chan struct{})
+	first := true
+	h.subs[0].sub.AddListener(func() {
+		if first {
+			first = false
+			close(entered)
+			<-gate
+		}
+	})
+	h.etcd.Put(h.names["B/k0"], "v0")
+	h.etcd.Put(h.names["B/k1"], "v1")
+	go h.etcd.Sync(0) // one response carrying both events
+	<-entered         // the watch goroutine is between the two events, in the listener
+	done := make(chan struct{})
+	go func() {
+		h.etcd.reloadOnly()
+		close(done)
+	}()
+	time.Sleep(300 * time.Millisecond) // let reload take the cluster lock
+	close(gate)
+	select {
+	case <-done:
+		t.Log("reload returned: no deadlock on this tree")
+	case <-time.After(5 * time.Second):
+		t.Fatalf("cluster.reload and the watch goroutine wait for each other (reload holds the cluster lock and " +
+			"waits for the watchers; handleWatchEvents needs the lock for the second event)")
+	}
 }
